@@ -41,20 +41,20 @@ type stratInfo struct {
 }
 
 var strategies = map[string]stratInfo{
-	"attestationdata/best":           {"att", "best", []string{"target+1", "target-1", "target-far", "nil-target", "nil-data"}, 4},
-	"attestationdata/majority":       {"att", "majority", []string{"target+1", "target-1", "target-far", "nil-target", "nil-data"}, 6},
-	"attestationdata/first":          {"att", "first", nil, 1},
-	"aggregateattestation/best":      {"agg", "best", []string{"nil-data"}, 3},
-	"aggregateattestation/first":     {"agg", "first", nil, 1},
-	"beaconblockproposal/best":       {"prop", "best", []string{"zero-fee", "no-block"}, 4},
-	"beaconblockproposal/first":      {"prop", "first", nil, 1},
-	"synccommitteecontribution/best": {"sync", "best", []string{"nil-data"}, 3},
+	"attestationdata/best":            {"att", "best", []string{"target+1", "target-1", "target-far", "nil-target", "nil-data"}, 4},
+	"attestationdata/majority":        {"att", "majority", []string{"target+1", "target-1", "target-far", "nil-target", "nil-data"}, 6},
+	"attestationdata/first":           {"att", "first", nil, 1},
+	"aggregateattestation/best":       {"agg", "best", []string{"nil-data"}, 3},
+	"aggregateattestation/first":      {"agg", "first", nil, 1},
+	"beaconblockproposal/best":        {"prop", "best", []string{"zero-fee", "no-block"}, 4},
+	"beaconblockproposal/first":       {"prop", "first", nil, 1},
+	"synccommitteecontribution/best":  {"sync", "best", []string{"nil-data"}, 3},
 	"synccommitteecontribution/first": {"sync", "first", nil, 1},
-	"beaconblockroot/first":          {"root", "first", nil, 1},
-	"beaconblockroot/latest":         {"root", "latest", nil, 3},
-	"beaconblockroot/majority":       {"root", "majority", nil, 4},
-	"beaconblockheader/first":        {"header", "first", nil, 1},
-	"signedbeaconblock/first":        {"block", "first", nil, 1},
+	"beaconblockroot/first":           {"root", "first", nil, 1},
+	"beaconblockroot/latest":          {"root", "latest", nil, 3},
+	"beaconblockroot/majority":        {"root", "majority", nil, 4},
+	"beaconblockheader/first":         {"header", "first", nil, 1},
+	"signedbeaconblock/first":         {"block", "first", nil, 1},
 }
 
 // strategyNames in a fixed order (no map iteration in generation).
